@@ -184,3 +184,56 @@ contract("CuckooFilter.add", contexts=["CuckooFilter"], properties=["C03", "C15"
                    f"all({_TCN} == (1 if f == ck_fp(self, key) else old({_TCN})) for f in allkeys())"),
                   ("inv_shape", "ck_shape(self)"), ("inv_placed", "ck_placed(self)"), ("inv_nodup", f"nodup({BK}, {CAP})"),
                   ("inv_counter", f"self._inserted_elements == tsize({BK}, {CAP})")])
+
+
+# ---- export of the cuckoo format (C05, C15, C19) ------------------------------------------------------------------------------
+_CKX = [("shape", "ck_shape(self)"),
+        ("fingerprints_are_uint32", "all(all(0 <= self._buckets[b][j] < 2**32 for j in range(0, len(self._buckets[b]))) "
+                                    "for b in range(0, self._cuckoo_capacity))"),
+        ("settings_fit_uint32", "self._bucket_size < 2**32 and 0 <= self._CuckooFilter__max_cuckoo_swaps < 2**32")]
+_CKB = "old(len(written(file)))"
+_CKSLOT = ("all(le_bytes(written(file), {base} + 4 * (smul(q, self._bucket_size) + j), 4) == "
+           "(self._buckets[q][j] if j < len(self._buckets[q]) else 0) for j in range(0, self._bucket_size))")
+contract("CuckooFilter.export", contexts=["CuckooFilter"], properties=["C05", "C15", "C19", "C06"],
+         params={"file": "stream"}, requires=_CKX, modifies=["file"],
+         ensures=[("appends_every_bucket_and_the_footer",
+                   f"len(written(file)) == {_CKB} + 4 * smul(self._cuckoo_capacity, self._bucket_size) + 8"),
+                  ("earlier_bytes_kept", f"all(written(file)[i] == old(written(file))[i] for i in range(0, {_CKB}))"),
+                  ("documented_layout", f"ck_image(self, written(file), {_CKB})")],
+         loops={0: {"invariant": [
+             ("length", f"len(written(file)) == {_CKB} + 4 * smul(_i, self._bucket_size)"),
+             ("earlier_bytes_kept", f"all(written(file)[i] == old(written(file))[i] for i in range(0, {_CKB}))"),
+             ("buckets_so_far", "all(" + _CKSLOT.format(base=_CKB) + " for q in range(0, _i))")]}})
+
+contract("CuckooFilter.__bytes__", contexts=["CuckooFilter"], properties=["C05", "C15", "C19", "C06"],
+         returns="bytes", requires=_CKX, modifies=[],
+         ensures=[("size", "len(result) == 4 * smul(self._cuckoo_capacity, self._bucket_size) + 8"),
+                  ("documented_layout", "ck_image(self, result, 0)")])
+
+_PAD = "all(cells32(d)[i] == 0 for i in range(nzlead(cells32(d), len(cells32(d))), len(cells32(d))))"
+contract("CuckooFilter._parse_bucket", contexts=["CuckooFilter"], properties=["C05", "C15"],
+         params={"d": "bytes"}, variants=[{"d": "mmap"}], returns="array:I",
+         requires=[("whole_slots", "len(d) % 4 == 0")], modifies=["self._inserted_elements"],
+         ensures=[("no_more_than_the_slots", "0 <= len(result) <= len(cells32(d))"),
+                  ("zeros_dropped", "all(result[i] != 0 for i in range(0, len(result)))"),
+                  ("counts_of_stored_fingerprints_kept",
+                   "all(implies(f != 0, lcount(result, 0, len(result), f) == lcount(cells32(d), 0, len(cells32(d)), f)) for f in allkeys())"),
+                  ("zero_padded_bucket_is_read_back_exactly",
+                   "implies(" + _PAD + ", len(result) == nzlead(cells32(d), len(cells32(d))) and "
+                   "all(result[i] == cells32(d)[i] for i in range(0, len(result))))"),
+                  ("counted", "self._inserted_elements == old(self._inserted_elements) + len(result)")])
+
+_CKF = ("le_bytes(d, len(d) - 8, 4)", "le_bytes(d, len(d) - 4, 4)")
+contract("CuckooFilter._parse_footer", contexts=["CuckooFilter"], properties=["C05", "C15"],
+         params={"d": "bytes", "stct": "struct:II"}, variants=[{"d": "mmap"}],
+         requires=[("has_footer", "len(d) >= 8"), ("stored_bucket_size_usable", f"{_CKF[0]} >= 1")],
+         modifies=["self._bucket_size", "self._CuckooFilter__max_cuckoo_swaps", "self._cuckoo_capacity"],
+         ensures=[("bucket_size_field", f"self._bucket_size == {_CKF[0]}"),
+                  ("max_swaps_field", f"self._CuckooFilter__max_cuckoo_swaps == {_CKF[1]}"),
+                  ("capacity_is_the_number_of_whole_buckets", "self._cuckoo_capacity == (len(d) - 8) // 4 // self._bucket_size")])
+
+contract("CuckooFilter.export@path", contexts=["CuckooFilter"], properties=["C05", "C15", "C06"],
+         params={"file": "key"}, requires=_CKX + [("a_path_is_given", "isinstance(file, str) and file != ''")], modifies=["fs"],
+         ensures=[("file_holds_exactly_the_documented_export",
+                   "file_exists(resolve(file)) and len(file_bytes(resolve(file))) == 4 * smul(self._cuckoo_capacity, self._bucket_size) + 8 "
+                   "and ck_image(self, file_bytes(resolve(file)), 0)")])
